@@ -473,6 +473,6 @@ theorem C11_state_classes_closed :
     stateClasses.all (fun r => r.2.1 == .immutableConst || r.2.1 == .writeOnceConst ||
       r.2.1 == .writeOnceEnv || r.2.1 == .envInput || r.2.1 == .perGenerationCell ||
       r.2.1 == .hookOnly || r.2.1 == .buildScript || r.2.1 == .declaredOutput ||
-      r.2.1 == .sharedScratchFile) = true := by decide
+      r.2.1 == .sharedScratchFile || r.2.1 == .scratchNameCounter) = true := by decide
 
 end BindgenModel.Determinism
